@@ -291,11 +291,18 @@ type bdgDB struct {
 	Opts badger.Options
 }
 
+type bdgPending struct {
+	key []byte // the caller's slice: "the transaction keeps a reference to the key and val byte slices;
+	val []byte // users must not modify or reuse the slices until the end of the transaction" (badger docs)
+	del bool
+}
+
 type bdgTxn struct {
-	db     *bdgDB
-	update bool
-	data   []kv // committed snapshot + own writes
-	done   bool
+	db      *bdgDB
+	update  bool
+	data    []kv // committed snapshot + own writes, as reads inside the transaction see them (keyed by a copy)
+	pending []bdgPending
+	done    bool
 }
 
 type bdgIter struct {
@@ -350,6 +357,7 @@ func BadgerSet(txn *badger.Txn, key, val []byte) error {
 		return badger.ErrEmptyKey
 	}
 	t.data = put(t.data, kv{k: clone(key), v: clone(val)})
+	t.pending = append(t.pending, bdgPending{key: key, val: val})
 	return nil
 }
 
@@ -363,6 +371,7 @@ func BadgerDelete(txn *badger.Txn, key []byte) error {
 		return badger.ErrReadOnlyTxn
 	}
 	t.data = del(t.data, key)
+	t.pending = append(t.pending, bdgPending{key: key, del: true})
 	return nil
 }
 
@@ -393,7 +402,16 @@ func BadgerCommit(txn *badger.Txn) error {
 	}
 	t.done = true
 	if t.update {
-		t.db.data = t.data
+		// the writes are applied with the key bytes the referenced slices hold NOW
+		d := t.db.data
+		for _, p := range t.pending {
+			if p.del {
+				d = del(d, p.key)
+			} else {
+				d = put(d, kv{k: clone(p.key), v: clone(p.val)})
+			}
+		}
+		t.db.data = d
 	}
 	return nil
 }
